@@ -39,6 +39,7 @@ type Check struct {
 	Outside     []string
 	Stubs       []string
 	Assumptions []string
+	Pre         func(p *sym.Program) []string // static pre-check; returned messages are INCONCLUSIVE
 	QuickBudget time.Duration
 	ThorBudget  time.Duration
 	QueryTO     time.Duration
@@ -56,6 +57,14 @@ type Runner struct {
 	NoReplay  bool
 	Overrides map[string]int
 	LoadTime  time.Duration
+	Out       string // if set: evidence/ and replays/ are written here
+}
+
+func (r *Runner) outRoot() string {
+	if r.Out != "" {
+		return r.Out
+	}
+	return r.Verif
 }
 
 type KnownFinding struct {
@@ -141,6 +150,12 @@ func (r *Runner) Run() int {
 	exit := 0
 	broken := false
 	var inconclusive []string
+	if c.Pre != nil {
+		for _, msg := range c.Pre(r.Prog) {
+			inconclusive = append(inconclusive, msg)
+			fmt.Printf("INCONCLUSIVE property=%s %s\n", c.ID, msg)
+		}
+	}
 	totalPaths, totalCompleted := 0, 0
 	funcs := map[*ssa.Function]int{}
 	var samples []interface{}
@@ -395,9 +410,9 @@ func (r *Runner) Run() int {
 		"property_id": c.ID, "tier": r.Tier, "seed": r.Seed, "level": "model_checking",
 		"coverage": cov, "assumptions": nz(c.Assumptions), "wall_s": wall.Seconds(), "violations": violN,
 	}
-	os.MkdirAll(filepath.Join(r.Verif, "evidence"), 0o755)
+	os.MkdirAll(filepath.Join(r.outRoot(), "evidence"), 0o755)
 	b, _ := json.MarshalIndent(ev, "", " ")
-	os.WriteFile(filepath.Join(r.Verif, "evidence", c.ID+".json"), b, 0o644)
+	os.WriteFile(filepath.Join(r.outRoot(), "evidence", c.ID+".json"), b, 0o644)
 	fmt.Printf("check %s tier=%s paths=%d completed=%d solver_calls=%d (sat %d unsat %d unknown %d err %d) cross=%d disagree=%d solver_s=%.1f wall=%.1fs inconclusive=%d violations=%d\n",
 		c.ID, r.Tier, totalPaths, totalCompleted, stats.Queries, stats.SatN, stats.UnsatN, stats.UnknownN, stats.Errors, stats.CrossChecked, stats.Disagreements,
 		float64(stats.SolverNS)/1e9, wall.Seconds(), len(inconclusive), violN)
@@ -470,7 +485,7 @@ func (r *Runner) writeReplay(h *Harness, sp *sym.HarnessSpec, v *sym.Violation) 
 	rf := replayFile{Property: r.Check.ID, Harness: h.Func, Pkg: h.Pkg, Label: v.Label, Where: v.Where, Signature: v.Signature, Detail: v.Detail, Params: sp.Params, Inputs: v.Inputs}
 	b, _ := json.MarshalIndent(rf, "", " ")
 	sum := sha256.Sum256([]byte(v.Signature))
-	dir := filepath.Join(r.Verif, "replays")
+	dir := filepath.Join(r.outRoot(), "replays")
 	os.MkdirAll(dir, 0o755)
 	p := filepath.Join(dir, fmt.Sprintf("%s-%x.json", r.Check.ID, sum[:4]))
 	os.WriteFile(p, b, 0o644)
@@ -529,6 +544,9 @@ func (r *Runner) validate(h *Harness, sp *sym.HarnessSpec, vs *sym.ValSample) st
 	b, _ := json.Marshal(rf)
 	vec := filepath.Join(tmp, "vector.json")
 	os.WriteFile(vec, b, 0o644)
+	if h.Sched {
+		return "" // what a schedule-exploring harness observes natively depends on the runtime scheduler
+	}
 	out, _ := runNative(r.Repo, r.Verif, h.Pkg, h.Func, vec)
 	if !strings.Contains(out, "VERIF-REPLAY outcome=clean") {
 		return "native run not clean:" + tail(out, 300)
